@@ -58,3 +58,51 @@ Definition ifcase_spec (c : ifcase) : bool :=
             (if_acs c)
   else true.
 Definition check_ifcases := check_cases ifcase_agree ifcase_spec.
+
+(* ---------- IdP-initiated flow (ServeIDPInitiated) ---------- *)
+(* the SP's SPSSODescriptors, each with its AssertionConsumerServices in document order *)
+Definition md_of_descs (l : list (list acs_entry)) : IdPModel.spmeta :=
+  {| IdPModel.md_entity := "sp";
+     IdPModel.descriptors :=
+       map (fun d : list acs_entry =>
+              {| IdPModel.acs := map (fun e : acs_entry =>
+                                        let '(b, loc, i, df) := e in
+                                        {| IdPModel.ep_binding := b; IdPModel.ep_location := loc;
+                                           IdPModel.ep_index := i; IdPModel.ep_default := df |}) d;
+                 IdPModel.kds := []; IdPModel.attr_services := [] |}) l |}.
+
+(* 0: the form, posting to the FIRST HTTP-POST endpoint in document order;
+   2: no HTTP-POST endpoint (500) *)
+Definition idp_initiated_form (descs : list (list acs_entry)) (msg relay : string) : Z * string :=
+  match IdPModel.idp_initiated_route (md_of_descs descs) with
+  | None => (2, EmptyString)
+  | Some (_, _, _, e) =>
+      (0, render_form FIdpResponse
+            {| fd_url := IdPModel.ep_location e; fd_msg := msg; fd_relay := relay; fd_toast := EmptyString |})
+  end.
+
+(* the first HTTP-POST location, computed on the flattened document order *)
+Fixpoint first_post_location (l : list acs_entry) : option string :=
+  match l with
+  | [] => None
+  | (b, loc, _, _) :: r => if seqb b IdPModel.post_binding then Some loc else first_post_location r
+  end.
+
+Record ipcase := {
+  ip_descs : list (list acs_entry); ip_relay : string; ip_msg : string;
+  ip_status : Z; ip_html : string; ip_dom : list elem_view }.
+Definition ipcase_agree (c : ipcase) : bool :=
+  let '(st, html) := idp_initiated_form (ip_descs c) (ip_msg c) (ip_relay c) in
+  (st =? ip_status c) && seqb html (ip_html c).
+(* exactly the intended single form, and its action is the FIRST registered
+   HTTP-POST assertion consumer service *)
+Definition ipcase_spec (c : ipcase) : bool :=
+  match first_post_location (List.concat (ip_descs c)) with
+  | Some loc =>
+      let d := {| fd_url := loc; fd_msg := ip_msg c; fd_relay := ip_relay c; fd_toast := EmptyString |} in
+      (ip_status c =? 0)
+      && opt_tokens_eqb (tokenize_form (ip_html c)) (intended_of FIdpResponse d)
+      && views_eqb (ip_dom c) (dom_view (intended_of FIdpResponse d))
+  | None => negb (ip_status c =? 0)
+  end.
+Definition check_ipcases := check_cases ipcase_agree ipcase_spec.
